@@ -5,7 +5,8 @@
    Every call site is a named action, so `-coverage 1` shows which sites fired. *)
 EXTENDS Pipeline, Json, IOUtils
 
-CONSTANTS MaxFaults      \* fault budget: at most this many non-return choices per behaviour
+CONSTANTS MaxFaults,     \* fault budget: at most this many non-return choices per behaviour
+          SameObj        \* whether a handler object may be registered again for another class
 
 ClassFile == JsonDeserialize(IOEnv.CLASSES_FILE)
 MCMro     == ClassFile.mro
@@ -26,6 +27,7 @@ R(c, b) == [cls |-> c, beh |-> b]
 (* C03 instances: a fixed registry offering every kind of handler outcome *)
 C3Regs == {<< R("AppB", "set"), R("AppC", "other"), R("AppD", "http"), R("StSub", "noop") >>}
 C3Raise  == {"HTTPError", "HTTPStatus", "AppA", "AppB", "AppC", "AppD"}
+C3RaiseSim == C3Raise \cup {"BadStr", "NonStr", "BadRepr"}
 C3RaiseQ == {"HTTPError", "AppA", "AppB", "AppC"}
 C3Render == {"AppA", "HTTPError"}
 NoRegs == {<<>>}
@@ -35,7 +37,7 @@ OnlyIndep == {TRUE}
 C4Targets == {"routed", "unrouted"}
 C4RegClasses == {"Exception", "HTTPError", "HTTPNotFound", "AppA", "AppB", "AppC"}
 C4RegClassesQ == {"Exception", "HTTPNotFound", "AppA", "AppB"}
-C4RaiseQ == {"HTTPNotFound", "StSub", "AppA", "AppB", "AppD", "AppX", "Exception"}
+C4RaiseQ == {"HTTPNotFound", "StSub", "AppA", "AppB", "AppD", "AppX", "Exception", "BadStr"}
 C4RenderQ == {"AppD", "HTTPNotFound"}
 (* session instances (several requests on one application, registrations in between) *)
 SRegClasses == {"AppA", "AppB", "HTTPNotFound"}
@@ -45,13 +47,21 @@ SRaise      == {"AppD", "AppX"}
 SRaise2     == {"AppB", "AppD", "AppX", "HTTPNotFound"}
 SRender     == {"AppD"}
 OnlyRouted  == {"routed"}
-C4RegBehs    == {"set", "setbad", "http", "other"}
-C4RegBehsAll == {"set", "setbad", "noop", "http", "status", "other"}
-C4Raise  == {"HTTPError", "HTTPNotFound", "HTTPStatus", "StSub", "AppA", "AppB", "AppC", "AppD", "AppX", "Exception"}
+(* registration-history instances: a depth-3 chain Exception <- AppA <- AppB <- AppD (AppD is also the diamond over
+   AppB/AppC); handler objects registered again for descendants; a request after every registration *)
+GRegClasses == {"AppA", "AppB", "AppD"}
+GRegClasses2 == {"Exception", "AppA", "AppB", "AppC", "AppD"}
+GRaise      == {"AppD"}
+GRaise2     == {"AppD", "AppB"}
+NoStack     == {<<>>}
+C4RegBehs    == {"set", "setbad", "http", "draftst", "other"}
+C4RegBehsAll == {"set", "setbad", "noop", "http", "status", "draftst", "drafterr", "other"}
+C4Raise  == {"HTTPError", "HTTPNotFound", "HTTPStatus", "StSub", "AppA", "AppB", "AppC", "AppD", "AppX", "Exception",
+             "BadStr", "NonStr", "BadRepr"}    \* the last three cannot be formatted (str() / repr() of them raises)
 C4Render == {"AppA", "AppD", "AppX", "HTTPNotFound"}
 None == {}
 (* wrong-design runs (vacuity control): a tiny instance in which every named wrong design is reachable *)
-WRegs  == {<< R("AppB", "set"), R("AppB", "http"), R("AppD", "setbad"), R("StSub", "noop") >>}
+WRegs  == {<< R("AppB", "set"), R("AppB", "http"), R("AppD", "setbad"), R("StSub", "noop"), R("HTTPError", "draftst") >>}
 WRaise == {"AppB", "AppD", "StSub", "HTTPError"}
 MCWrong == IF "WRONG" \in DOMAIN IOEnv THEN IOEnv.WRONG ELSE "none"
 
@@ -60,6 +70,7 @@ P3 == ActCls({"ret", "complete", "raise"})
 P2 == ActCls({"ret", "raise"})
 
 XAddHandler == \E c \in RegClasses, b \in RegBehs : AddHandler(c, b)
+XAddSame    == SameObj /\ \E c \in RegClasses, k \in 1..Len(reg) : AddSame(c, k)
 XStart      == Start
 XReqCall    == \E p \in P3 : Budget(p[1]) /\ ReqCall(p[1], p[2])
 XRsrcCall   == \E p \in P3 : Budget(p[1]) /\ RsrcCall(p[1], p[2])
@@ -82,7 +93,7 @@ XRespDone == RespDone
 XHandle == HandleCall
 XNextRequest == NextRequest
 
-MCNext == XAddHandler \/ XStart \/ XReqCall \/ XRsrcCall \/ XBeforeCall \/ XResponder \/ XAfterCall \/ XRespCall
+MCNext == XAddHandler \/ XAddSame \/ XStart \/ XReqCall \/ XRsrcCall \/ XBeforeCall \/ XResponder \/ XAfterCall \/ XRespCall
           \/ XRenderOk \/ XRenderFail \/ XRenderBad \/ XReqSkip \/ XReqDone \/ XRoute \/ XRsrcSkip \/ XRsrcDone \/ XBeforeDone
           \/ XNotFound \/ XAfterDone \/ XRespDone \/ XHandle \/ XNextRequest
 
